@@ -118,6 +118,9 @@ def _ints(lo, hi):
     return st.sampled_from(range(lo, hi + 1))
 
 
+LONG = 10       # callback duration: a timed wait instead of extra points
+
+
 @st.composite
 def g_scenario(draw):
     maxq = draw(st.sampled_from([0, 0, 1, 1, 2]))
@@ -125,7 +128,8 @@ def g_scenario(draw):
     waves = [0, 1] if 'go1' in PROGRAMS[pname] else [0]
     ncb = draw(_ints(1, 2))
     cbs = tuple((draw(st.sampled_from(['ok', 'ok', 'raise'])),
-                 draw(st.sampled_from([0, 0, 1, 3]))) for _ in range(ncb))
+                 draw(st.sampled_from([0, 0, 1, 3, LONG])))
+                for _ in range(ncb))
     ns = draw(_ints(1, 3))
     # third field = where the handler threads of this sender's requests are
     # held up for a virtual 10 s (bit 1, "slow": before the request is
@@ -267,8 +271,14 @@ def run_case(scenario, schedule, max_steps=4000):
             key = indication['Key']
             run.log.append(('enter', idx, key, me.name if me else '?'))
             s.yield_point('cb.enter')
-            for _ in range(slow):
-                s.yield_point('cb.work')
+            if slow == LONG:
+                # a callback that takes long (virtual 1 s: ten polls of
+                # stop()): under the fair completion everything else that
+                # can run does so first
+                s.block(lambda: False, 1.0, 'cb.work:long')
+            else:
+                for _ in range(slow):
+                    s.yield_point('cb.work')
             run.log.append(('exit', idx, key, me.name if me else '?'))
             s.yield_point('cb.exit')
             if kind == 'raise':
@@ -610,6 +620,10 @@ def classify(scenario, run):
         classes.append('callback-raises')
     if any(sl for _, sl in cbs):
         classes.append('callback-slow')
+    if any(sl == LONG for _, sl in cbs):
+        classes.append('callback-long')
+    if s.qstats['put_on_full'] >= 2:
+        classes.append('queue-full:2+-puts-refused')
     vals = list(run.acks.values())
     for r in ('success', 'refused', 'noconn'):
         if r in vals:
@@ -668,12 +682,23 @@ SMALL = [
     (1, (('ok', 1),), ((0, 1),), 'after'),
     (1, (('raise', 0),), ((0, 1),), 'restart-active-wait'),
     (0, (('ok', 0),), ((0, 1, 1),), 'active'),      # slow sender
+    # one sender x 2 indications, unbounded queue: the second request is
+    # sent after the response to the first; handler threads held up after
+    # the response / not held up
+    (0, (('ok', 0),), ((0, 2, 2),), 'after'),
+    (0, (('ok', 0),), ((0, 2, 0),), 'after'),
 ]
+# (quick, thorough) bound on the non-default choices, where not (2, 3)
+SMALL_BOUND = {
+    (0, (('ok', 0),), ((0, 2, 2),), 'after'): (1, 2),
+    (0, (('ok', 0),), ((0, 2, 0),), 'after'): (1, 2),
+}
 
 
 def enumerate_small(ctx, shard, nshards):
-    bound = 2 if ctx.tier == 'quick' else 3
     for scenario in SMALL:
+        bound = SMALL_BOUND.get(scenario, (2, 3))[
+            0 if ctx.tier == 'quick' else 1]
         # level 0
         root = run_case(scenario, [])
         nopt0 = list(root.sched.noptions)
@@ -728,7 +753,10 @@ def g_real(draw):
                     for _ in range(draw(_ints(1, 3))))
     gate = draw(st.booleans())       # callbacks wait until all are sent
     restart = draw(st.booleans())
-    return (maxq, cbs, senders, gate, restart)
+    # the handler threads of every other indication are held up for 30 ms
+    # before and after they hand the indication over to the listener
+    lag = draw(st.booleans())
+    return (maxq, cbs, senders, gate, restart, lag)
 
 
 def _free_port(seed):
@@ -748,7 +776,8 @@ def _free_port(seed):
 
 
 def oracle_real(ctx, example):
-    maxq, cbs, senders, gate, restart = example
+    maxq, cbs, senders, gate, restart = example[:5]
+    lag = example[5] if len(example) > 5 else False
     ncb = len(cbs)
     before = set(threading.enumerate())
     port = _free_port(ctx.seed + ctx.evaluations * 31 + ctx.shard * 1009)
@@ -777,6 +806,23 @@ def oracle_real(ctx, example):
 
     for i, kind in enumerate(cbs):
         listener.add_callback(make_cb(i, kind))
+
+    if lag:
+        # stands for the handler thread being descheduled at these points
+        # (do_POST looks the method up on the listener object)
+        orig_handle = listener._handle_indication  # noqa
+
+        def lagging_handle(indication, host, msgid):
+            held = indication['Key'].endswith(('.0', '.2'))
+            if held:
+                time.sleep(0.03)
+            try:
+                return orig_handle(indication, host, msgid)
+            finally:
+                if held:
+                    time.sleep(0.03)
+
+        listener._handle_indication = lagging_handle  # noqa
 
     def send(i, n):
         conn = pywbem.WBEMConnection('http://127.0.0.1:%d' % port,
@@ -885,6 +931,10 @@ def oracle_real(ctx, example):
             classes.append('some-' + r)
     if gate:
         classes.append('callbacks-gated')
+    if lag:
+        classes.append('handlers-held-up')
+        if maxq == 0 and any(n >= 2 for n in senders):
+            classes.append('handlers-held-up:unbounded-queue:serial-sender')
     ctx.case(nontrivial=len(vals) >= 2, classes=classes)
 
 
